@@ -295,6 +295,26 @@ func init() {
 			}
 			c.Count("numeral", nm.text)
 		}
+		// duplicate names are per scope (top level, or one vendor), decided by the statement itself
+		for _, du := range []struct {
+			text string
+			ok   bool
+		}{
+			{"ATTRIBUTE A 1 string\nATTRIBUTE A 2 string\n", false},
+			{"ATTRIBUTE A 1 string\nATTRIBUTE B 2 string\n", true},
+			{"VENDOR V 9\nBEGIN-VENDOR V\nATTRIBUTE A 1 string\nATTRIBUTE A 2 string\nEND-VENDOR V\n", false},
+			{"VENDOR V 9\nATTRIBUTE A 1 string\nBEGIN-VENDOR V\nATTRIBUTE A 1 string\nEND-VENDOR V\n", true},
+			{"VENDOR V 9\nVENDOR W 10\nBEGIN-VENDOR V\nATTRIBUTE A 1 string\nEND-VENDOR V\nBEGIN-VENDOR W\nATTRIBUTE A 1 string\nEND-VENDOR W\n", true},
+			{"VENDOR V 9\nBEGIN-VENDOR V\nATTRIBUTE A 1 string\nEND-VENDOR V\nATTRIBUTE B 1 string\nATTRIBUTE B 2 string\n", false},
+			{"VENDOR V 9\nVENDOR V 10\n", false},
+			{"VENDOR V 9\nVENDOR W 9\n", false},
+		} {
+			_, err := (&dictionary.Parser{Opener: &memOpener{files: map[string]memEntry{"d": {"d", du.text}}, limit: 4}}).ParseFile("d")
+			if du.ok != (err == nil) {
+				c.Fail("spec", "Parser.ParseFile", "duplicates", du.text, fmt.Sprint(err), map[bool]string{true: "accepted", false: "rejected"}[du.ok], "duplicate attribute names are rejected within a scope (top level or one vendor), and only there; duplicate vendor names or numbers are rejected")
+			}
+			c.Count("duplicates", du.text)
+		}
 		// flag lists, decided by the statement itself: any order, no repetition
 		for _, fl := range []struct {
 			text string
